@@ -7,7 +7,8 @@
 From Coq Require Import ZArith List Bool.
 From JL.std Require Import GoBase GoVal.
 From JL.model Require Import Row RowRun.
-From JL.proofs Require Import RowProofs.
+From JL.model Require Import Template.
+From JL.proofs Require Import RowProofs TemplateOrder.
 Import ListNotations.
 Open Scope Z_scope.
 
@@ -64,6 +65,14 @@ Theorem C06_iter_order : forall r,
   map fst (iter_values r) = row_l r /\ forall k v, In (k, v) (iter_values r) -> v = get_value k r.
 Proof. intros r. split; [apply iter_order | apply iter_lookup]. Qed.
 Print Assumptions C06_iter_order.
+
+(* serialisation follows the same order: row.MarshalJSON emits the visible keys in key-list order *)
+Theorem C06_marshal_order : forall enc_string (rec : cell -> res str) m l0 l ss,
+  marshal_row_members enc_string rec m l = Ok ss ->
+  exists vs, length vs = length (filter (visible (MkRow m l0)) l)
+             /\ ss = zip_members enc_string (filter (visible (MkRow m l0)) l) vs.
+Proof. intros. eapply marshal_row_members_order; eauto. Qed.
+Print Assumptions C06_marshal_order.
 
 (* non-vacuity: a history that inserts, replaces and re-imports *)
 Example C06_example : forall O,
